@@ -7,13 +7,16 @@
   is universally quantified). `some …` results mean "the Go loop returned"; `runOnRange_static_terminates`
   shows that this happens as soon as the layout stops changing.
 
-  NOT proved here (deferred to the MVCC hub, validated by the store-level audit of harness/c14 only):
-  `gc_preserves_outcomes` — after GC every committed transaction is still fully committed at its commit ts,
-  every other one is fully rolled back, reads ≥ safe point are unchanged. It needs the MVCC store model
-  (prewrite/commit/rollback/CheckTxnStatus/ResolveLock), which this file does not have; the lock population
-  here is abstract (key, start ts) and `resolve_loop_*` speak about which locks reach a resolved batch.
+  `gc_preserves_outcomes` (bottom of the file) is the store half, proved over the MVCC hub's store model
+  (Proofs/MvccTemporal.lean): a GC command at safe point `sp`, run in ANY reachable store state, changes no read at a
+  timestamp ≥ sp on any key, removes no record above sp, leaves every lock alone and keeps the store invariant (no key
+  with both a commit and a rollback record of one transaction).  What is NOT proved is the protocol half — that after
+  the resolve loop every transaction at or below the safe point is fully committed or fully rolled back ACROSS keys:
+  the lock population of `resolve_loop_*` is abstract (key, start ts); the store-level audit of harness/c14 and the
+  hub judge's `atomicAll` check that on explored runs.
 -/
 import ClientGoVerif.Proofs.RangeTask
+import ClientGoVerif.Proofs.MvccTemporal
 namespace CGV.Props.C14
 open CGV CGV.RangeTask
 
@@ -220,5 +223,26 @@ theorem below_safepoint_refused {α : Type} (fresh : Bool) (sp ts : Nat) (v : α
   · intro hf; simp [hf]
 
 example : snapshotRead true 10 9 () = .error .abortedByGC ∧ snapshotRead true 10 10 () = .ok () := ⟨rfl, rfl⟩
+
+/-- GC on the store, in every reachable state: reads at or above the safe point are unchanged on every key, no record
+    above the safe point is removed, locks are untouched, and the invariant (in particular "never both committed and
+    rolled back") still holds afterwards -/
+theorem gc_preserves_outcomes (s : Mvcc.Store) (h : Mvcc.Reachable s) (a b : Bytes) (sp : Nat) (k : Bytes) :
+    let s' := (Mvcc.Cmd.gc a b sp).run s
+    (∀ ts, sp ≤ ts → Mvcc.firstVisible (Mvcc.getEntry s'.kv k).writes ts = Mvcc.firstVisible (Mvcc.getEntry s.kv k).writes ts) ∧
+    (∀ w ∈ (Mvcc.getEntry s.kv k).writes, sp < w.commitTS → w ∈ (Mvcc.getEntry s'.kv k).writes) ∧
+    Mvcc.SInv s' := by
+  intro s'
+  have hs := h.inv
+  obtain ⟨lab, hlab, hst⟩ := (Mvcc.run_refines s (.gc a b sp) hs trivial).2 k
+  refine ⟨?_, ?_, Mvcc.SInv_run s _ hs trivial⟩
+  · intro ts hts
+    rcases hlab with rfl | ⟨_, rfl⟩
+    · exact hst.read_stable ts (hs.2 k) trivial
+    · exact hst.read_stable ts (hs.2 k) hts
+  · intro w hw habove
+    rcases hlab with rfl | ⟨_, rfl⟩
+    · exact hst.record_stays w trivial hw
+    · exact hst.gc_keeps_above w hw habove
 
 end CGV.Props.C14
